@@ -10,5 +10,6 @@ let () =
   | "rules" -> D_rules.run ()
   | "cram" -> D_docs.run_cram ()
   | "md" -> D_docs.run_md ()
+  | "gen" -> D_gen.run ()
   | "validate" -> D_exec.run_validate ()
   | x -> prerr_endline ("unknown " ^ x); exit 2
